@@ -404,7 +404,32 @@ end Code
 inductive CliRule | ifGiven | always
   deriving DecidableEq, Repr
 
+/-- `str::splitn(2, ' ')`: the text before the first blank and the whole rest; `none` when there is no blank. -/
+def splitFirstBlank : Bytes → Option (Bytes × Bytes)
+  | [] => none
+  | b :: t => if b = 32 then some ([], t) else (splitFirstBlank t).map fun p => (b :: p.1, p.2)
+
+def REQUIREPASS : Bytes := [114, 101, 113, 117, 105, 114, 101, 112, 97, 115, 115]
+
 namespace Code
+/-- One line of the configuration file (`parse_config_file`): trim; nothing if empty or if the first character is `#`;
+    split at the first blank (no blank: a format error, the server does not start — `none` here as well); the
+    directive is trimmed and lower-cased, the value is the WHOLE rest, trimmed.  `hashCuts = true` is a variant that
+    first drops everything from the first `#` on (a "trailing comment"), which truncates values containing `#`. -/
+def parseConfigLine (hashCuts : Bool) (line : Bytes) : Option (Bytes × Bytes) :=
+  let l := trim line
+  if l = [] ∨ l.head? = some 35 then none else
+  let l := if hashCuts then trim (l.takeWhile (· ≠ 35)) else l
+  match splitFirstBlank l with
+  | none => none
+  | some (p, v) => some ((trim p).map (fun b => if 65 ≤ b ∧ b ≤ 90 then b + 32 else b), trim v)
+
+/-- the values of the `requirepass` lines of a file, in order -/
+def filePasswords (hashCuts : Bool) (lines : List Bytes) : List Bytes :=
+  lines.filterMap fun l => match parseConfigLine hashCuts l with
+    | some (p, v) => if p = REQUIREPASS then some v else none
+    | none => none
+
 /-- `cli`: the values of `--requirepass` / `--password` in command-line order (the last one stays in `CliArgs`);
     `file`: the values of the configuration file's `requirepass` lines in order (the last one stays).
     main.rs: file first, then the command line on top. -/
